@@ -1,6 +1,174 @@
-//! C03 -- (stub; see DESIGN.md section 5)
-use crate::util::Args;
+//! C03 -- the lexer and trace positions.
+//!
+//! The real `Lexer` is driven directly with a custom `Config` (category-code table, end-line
+//! character); every token is traced through the real `Tracer`.  Events are decided by TLC against
+//! TexLexer.tla; nothing here knows what the tokens should be.
+use crate::util::{catch, quiet_panics, Args, Out, Rng};
+use serde_json::{json, Value};
+use std::collections::HashMap;
+use texlang::token::lexer::{self, Lexer};
+use texlang::token::trace;
+use texlang::token::{CommandRef, CsNameInterner, Token, Value as TV};
+use texlang::types::CatCode;
 
-pub fn dispatch(_cmd: &str, _args: &Args) -> Option<i32> {
-    None
+pub fn dispatch(cmd: &str, args: &Args) -> Option<i32> {
+    Some(match cmd {
+        "c03-events" => events(args),
+        _ => return None,
+    })
+}
+
+struct Cfg {
+    table: HashMap<char, CatCode>,
+    elc: Option<char>,
+}
+impl lexer::Config for Cfg {
+    fn cat_code(&self, c: char) -> CatCode {
+        self.table.get(&c).copied().unwrap_or(CatCode::Other)
+    }
+    fn end_line_char(&self) -> Option<char> {
+        self.elc
+    }
+}
+
+fn cat_from(n: u64) -> CatCode {
+    use CatCode::*;
+    [Escape, BeginGroup, EndGroup, MathShift, AlignmentTab, EndOfLine, Parameter, Superscript, Subscript, Ignored, Space,
+     Letter, Other, Active, Comment, Invalid][n as usize]
+}
+
+fn lines_of(text: &str) -> Vec<&str> {
+    let mut v: Vec<&str> = text.split('\n').collect();
+    if v.last() == Some(&"") {
+        v.pop();
+    }
+    v
+}
+
+/// Lex `text` completely; one JSON event.
+fn lex_event(text: &str, table: &[(char, u64)], elc: i64) -> Value {
+    let lines = lines_of(text);
+    let cfg = Cfg {
+        table: table.iter().map(|(c, n)| (*c, cat_from(*n))).collect(),
+        elc: if elc >= 0 { char::from_u32(elc as u32) } else { None },
+    };
+    let r = catch(|| {
+        let mut tracer: trace::Tracer = Default::default();
+        let mut interner: CsNameInterner = Default::default();
+        let range = tracer.register_source_code(None, trace::Origin::File("main.tex".into()), text);
+        let mut lx = Lexer::new(text.to_string(), range);
+        let mut toks: Vec<Value> = vec![];
+        let mut guard = 0;
+        loop {
+            guard += 1;
+            if guard > 100_000 {
+                toks.push(json!({"k":"runaway","cat":-1,"ch":0,"name":[],"ln":0,"col":0,"lnok":false}));
+                break;
+            }
+            let (kind, token, ch) = match lx.next(&cfg, &mut interner, false) {
+                lexer::Result::Token(t) => ("tok", t, 0u32),
+                lexer::Result::InvalidCharacter(c, key) => ("invalid", Token::new_letter(c, key), c as u32),
+                lexer::Result::EndOfLine => continue,
+                lexer::Result::EndOfInput => break,
+            };
+            let tr = tracer.trace(token, &interner);
+            let lnok = tr.line_number >= 1 && lines.get(tr.line_number - 1).map(|l| *l == tr.line_content).unwrap_or(false);
+            let (cat, chv, name): (i64, u32, Vec<u32>) = if kind == "invalid" {
+                (15, ch, vec![])
+            } else {
+                match token.value() {
+                    TV::CommandRef(CommandRef::ControlSequence(n)) => (16, 0, interner.resolve(n).unwrap().chars().map(|c| c as u32).collect()),
+                    TV::CommandRef(CommandRef::ActiveCharacter(c)) => (13, c as u32, vec![]),
+                    _ => (token.cat_code().map(|c| c as i64).unwrap_or(-1), token.char().unwrap_or('\0') as u32, vec![]),
+                }
+            };
+            toks.push(json!({"k":kind,"cat":cat,"ch":chv,"name":name,"ln":tr.line_number,"col":tr.index,"lnok":lnok}));
+        }
+        toks
+    });
+    let lines_codes: Vec<Vec<u32>> = lines.iter().map(|l| l.chars().map(|c| c as u32).collect()).collect();
+    let table_j: Vec<Vec<u64>> = table.iter().map(|(c, n)| vec![*c as u64, *n]).collect();
+    match r {
+        Ok(toks) => json!({"lines":lines_codes,"table":table_j,"elc":elc,"toks":toks,"panic":"","text":text}),
+        Err((site, msg)) => json!({"lines":lines_codes,"table":table_j,"elc":elc,"toks":[],"panic":format!("{site}: {msg}"),"text":text}),
+    }
+}
+
+pub fn events(args: &Args) -> i32 {
+    quiet_panics();
+    let seed: u64 = args.num("seed", 1);
+    let maxlen: usize = args.num("exhaustive", 4);
+    let nrand: usize = args.num("random", 2000);
+    let mut out = Out::new(args.str("out"));
+    // ---- exhaustive short texts over a role alphabet, plain-TeX-like table ----------------------
+    let sigma: Vec<char> = vec!['\\', 'a', 'M', ' ', '^', '%', 'é', '\u{7f}', '\n', '6', 'b'];
+    let table: Vec<(char, u64)> = vec![('\\', 0), ('a', 11), ('M', 11), ('b', 11), (' ', 10), ('^', 7), ('%', 14), ('\r', 5), ('\0', 9), ('\u{7f}', 15)];
+    let elcs = [-1i64, 13, 97, 94];
+    let mut texts: Vec<String> = vec![String::new()];
+    let mut frontier: Vec<String> = vec![String::new()];
+    for _ in 0..maxlen {
+        let mut next = vec![];
+        for t in &frontier {
+            for c in &sigma {
+                let mut u = t.clone();
+                u.push(*c);
+                next.push(u);
+            }
+        }
+        texts.extend(next.iter().cloned());
+        frontier = next;
+    }
+    for t in &texts {
+        for e in elcs {
+            out.line(&lex_event(t, &table, e));
+        }
+    }
+    // ---- random texts with random category-code assignments ---------------------------------
+    let mut rng = Rng::new(seed);
+    let pool: Vec<char> = vec!['\\', 'a', 'b', 'c', 'f', '6', '1', 'M', '^', '~', ' ', ' ', '\n', '\r', '\t', '\0', '\u{7f}', '%', '{', '}', '#', '$', '&', '_', 'é', '€', '?', '@', '7'];
+    for i in 0..nrand {
+        let len = 1 + rng.below(if i % 5 == 0 { 60 } else { 16 }) as usize;
+        let mut text = String::new();
+        for _ in 0..len {
+            // favour ^^ sequences, trailing blanks and escapes
+            match rng.below(12) {
+                0 => {
+                    let c = *rng.pick(&['^', '~', 'M']);
+                    text.push(c);
+                    text.push(c);
+                }
+                1 => text.push_str("  "),
+                _ => text.push(*rng.pick(&pool)),
+            }
+        }
+        if rng.chance(1, 2) {
+            text.push('\n');
+        }
+        // category codes: half of the events use a plain-TeX-like table, the others assign a random
+        // code to every character that occurs (covering all 16 codes over the run)
+        let mut tb: Vec<(char, u64)> = vec![];
+        let mut seen: Vec<char> = vec![];
+        for c in text.chars().chain(['\r', 'a', '^']) {
+            if c == '\n' || seen.contains(&c) {
+                continue;
+            }
+            seen.push(c);
+            let code = if i % 2 == 0 {
+                match c {
+                    '\\' => 0, '{' => 1, '}' => 2, '$' => 3, '&' => 4, '\r' => 5, '#' => 6, '^' => 7, '_' => 8, '\0' => 9,
+                    ' ' | '\t' => 10, 'a' | 'b' | 'c' | 'f' | 'M' => 11, '~' => 13, '%' => 14, '\u{7f}' => 15, _ => 12,
+                }
+            } else {
+                match rng.below(5) {
+                    0 => rng.below(16),
+                    1 => *rng.pick(&[0u64, 7, 7, 11, 11, 10, 5, 14, 9, 15]),
+                    _ => match c { '\\' => 0, '^' => 7, ' ' => 10, '\r' => 5, 'a' | 'b' | 'c' | 'f' | 'M' => 11, '%' => 14, _ => 12 },
+                }
+            };
+            tb.push((c, code));
+        }
+        let elc = *rng.pick(&[-1i64, 13, 13, 13, 97, 94, 32, 37, 92, 0, 127, 54, 98]);
+        out.line(&lex_event(&text, &tb, elc));
+    }
+    0
 }
